@@ -188,6 +188,8 @@ class SqlImpl(TableImpl):
                 # (for example IBM DB2 returns lowercase columns as uppercase column
                 # names)
                 df.columns = [c.name for c in sel.selected_columns]
+                if target.lazy:
+                    df = df.lazy()
                 df.name = nd.name
                 return df
 
